@@ -39,6 +39,7 @@ def main():
     ap = argparse.ArgumentParser()
     ap.add_argument("--only", nargs="*")
     ap.add_argument("--table-only", action="store_true")
+    ap.add_argument("--update-design", action="store_true", help="replace the table of DESIGN.md section 5.2")
     a = ap.parse_args()
     names = sorted(d for d in os.listdir(SEEDED) if os.path.exists(os.path.join(SEEDED, d, "patch.diff")))
     if a.only:
@@ -74,15 +75,27 @@ def main():
         code, out = sh(["git", "-C", "/repo", "status", "--porcelain"])
         assert not out.strip(), "/repo left dirty"
     # table
-    print("| seeded change | property | needs to manifest | caught by (own property) | also fires | confirmed |")
-    print("|---|---|---|---|---|---|")
+    lines = []
+    print_ = lines.append
+    print_("| seeded change | property | needs to manifest | caught by (own property) | also fires | confirmed |")
+    print_("|---|---|---|---|---|---|")
     for n in names:
         meta = json.load(open(os.path.join(SEEDED, n, "meta.json")))
         fired = meta.get("checks_fired") or {}
         own = sorted({x.split(":")[0] for x in fired.get(meta["property"], [])})
         other = sorted({x.split(":")[0] for k, v in fired.items() if k != meta["property"] for x in v})
         needs = (meta.get("needs_to_manifest") or "").replace("|", "/")
-        print(f"| `{n}` | {meta['property']} | {needs} | {', '.join(own) or '**missed**'} | {', '.join(other) or '-'} | {'yes' if meta.get('confirmed') else 'NO'} |")
+        print_(f"| `{n}` | {meta['property']} | {needs} | {', '.join(own) or '**missed**'} | {', '.join(other) or '-'} | {'yes' if meta.get('confirmed') else 'NO'} |")
+    print("\n".join(lines))
+    if a.update_design:
+        dp = os.path.join(VERIF, "DESIGN.md")
+        txt = open(dp).read()
+        block = "<!-- SEED_TABLE_BEGIN -->\n" + "\n".join(lines) + "\n<!-- SEED_TABLE_END -->"
+        if "SEED_TABLE_PLACEHOLDER" in txt:
+            txt = txt.replace("SEED_TABLE_PLACEHOLDER", block)
+        else:
+            txt = re.sub(r"<!-- SEED_TABLE_BEGIN -->.*?<!-- SEED_TABLE_END -->", lambda m: block, txt, flags=re.S)
+        open(dp, "w").write(txt)
     return 0
 
 
